@@ -493,14 +493,28 @@ func runC06(c *CaseCtx) (res CaseResult) {
 			}
 			return res
 		}
+		// one case in ten: an unrelated supplied value that contains itself
+		// (a legal Go value; formatting it with %v never terminates)
+		var cyc []am.Arg
+		if c.Idx%10 == 3 {
+			l := xCyc{nil, 7}
+			l[0] = l
+			cyc = []am.Arg{am.Typed(l)}
+			if r.Intn(2) == 0 {
+				cyc = append(cyc, am.Named("zzcyc", selfRefNode()))
+			}
+			if k == 0 {
+				res.obs("cases_with_a_self_referential_value", 1)
+			}
+		}
 		// Call
-		o := DoCall(in.W, in.Target.Func, in.AllArgs(0, r))
+		o := DoCall(in.W, in.Target.Func, append(in.AllArgs(0, r), cyc...))
 		note("call", &o)
 		checkCall(in, &o, &cf, 0, 0, &res)
 		// Convert to a random type
 		tt := r.Intn(nTypes)
 		n0 := in.W.NumEvents()
-		o2 := DoConvert(in.W, types[tt], in.AllArgs(1, r))
+		o2 := DoConvert(in.W, types[tt], append(in.AllArgs(1, r), cyc...))
 		note("convert", &o2)
 		for _, msg := range checkBinding(in.W, o2.Events, BindingOpts{AllowedCalls: map[int]bool{1: true}, MinSeq: n0}) {
 			res.violate("C01", "binding/"+bindingKind(msg), "Convert: "+msg, det("convert", &o2))
@@ -508,6 +522,7 @@ func runC06(c *CaseCtx) (res CaseResult) {
 		// Redefine with a random filter, then call the result
 		var ropts []am.Arg
 		ropts = append(ropts, in.AllArgs(2, r)...)
+		ropts = append(ropts, cyc...)
 		if r.Intn(3) != 0 {
 			f, _ := randomFilter(r)
 			ropts = append(ropts, am.FilterInput(f))
@@ -541,8 +556,8 @@ func runC06(c *CaseCtx) (res CaseResult) {
 // runC06Malformed: malformed options must be ignored or reported, never panic.
 func runC06Malformed(c *CaseCtx, r *rand.Rand) (res CaseResult) {
 	s, _ := genExact(r, r.Intn(2) == 0)
-	kind := r.Intn(12)
-	kinds := []string{"nil-option", "named-nil", "typed-nil", "converterfunc-nil", "converter-42", "converter-nil", "gen-error", "gen-nil-nil", "newfunc-nonfunc", "gen-nil-func", "logger-nil", "converter-typed-nil-func"}
+	kind := r.Intn(14)
+	kinds := []string{"nil-option", "named-nil", "typed-nil", "converterfunc-nil", "converter-42", "converter-nil", "gen-error", "gen-nil-nil", "newfunc-nonfunc", "gen-nil-func", "logger-nil", "converter-typed-nil-func", "filter-combinator-nil", "filter-type-nil"}
 	res.Key = kinds[kind] + " " + s.Key()
 	res.NonTrivial = true
 	res.obs("malformed_cases", 1)
@@ -577,6 +592,20 @@ func runC06Malformed(c *CaseCtx, r *rand.Rand) (res CaseResult) {
 	case 11:
 		// a nil value of a function type is not a function to call
 		bad, wantErr = am.Converter((func(T4) T5)(nil)), true
+	case 12:
+		// nil filter functions inside the combinators (Redefine applies
+		// the filters; for Call and Convert the option has no effect)
+		if r.Intn(2) == 0 {
+			bad = am.FilterInput(am.FilterOr(nil, am.FilterAnd(nil), func(am.Value) bool { return true }))
+		} else {
+			bad = am.FilterOutput(am.FilterAnd(nil, am.FilterOr(nil, func(am.Value) bool { return true })))
+		}
+	case 13:
+		if r.Intn(2) == 0 {
+			bad = am.FilterInput(am.FilterOr(am.FilterType(nil), func(am.Value) bool { return true }))
+		} else {
+			bad = am.FilterOutput(am.FilterOr(am.FilterType(nil), func(am.Value) bool { return true }))
+		}
 	case 7:
 		bad = am.ConverterGen(func(am.Value) (*am.Func, error) { return nil, nil })
 	case 8:
@@ -657,4 +686,19 @@ func runC06Malformed(c *CaseCtx, r *rand.Rand) (res CaseResult) {
 	}()
 	res.Sample = map[string]interface{}{"malformed": kinds[kind], "scenario": s.String()}
 	return res
+}
+
+// xCyc is a slice type whose values can contain themselves; xCycNode a
+// struct that points to itself through an interface field.
+type xCyc []interface{}
+
+type xCycNode struct {
+	Next interface{}
+	Tag  string
+}
+
+func selfRefNode() *xCycNode {
+	n := &xCycNode{Tag: "self"}
+	n.Next = []interface{}{n, map[string]interface{}{"n": n}}
+	return n
 }
